@@ -52,6 +52,8 @@ pub struct EpCfg {
     pub spare: u8,
     /// DeviceCapabilities::max_burst_size of the endpoint's device (the interface clamps the advertised window to it)
     pub burst: Option<usize>,
+    /// the device verifies / computes no UDP checksums (DeviceCapabilities.checksum.udp = None); TCP's stay with the stack
+    pub udp_csum_off: bool,
 }
 
 pub struct Ep {
@@ -88,6 +90,9 @@ impl Ep {
     pub fn new(idx: usize, cfg: EpCfg, now: Instant) -> Ep {
         let mut dev = QDev::new(Medium::Ip, cfg.mtu);
         dev.burst = cfg.burst;
+        if cfg.udp_csum_off {
+            dev.csum.udp = smoltcp::phy::Checksum::None;
+        }
         let mut c = Config::new(HardwareAddress::Ip);
         c.random_seed = cfg.seed;
         let mut iface = Interface::new(c, &mut dev, now);
@@ -256,6 +261,7 @@ fn pick_cfg(rng: &mut Rng, seed: u64, small: bool) -> EpCfg {
         spare: *rng.pick(&[0u8, 0, 1, 2, 3]),
         // (taken from the seed, not from the generator: the other choices of a run stay what they were)
         burst: if (seed / 7) % 4 == 0 { Some(1 + (seed % 3) as usize) } else { None },
+        udp_csum_off: (seed / 3) % 2 == 0,
     }
 }
 
@@ -297,7 +303,8 @@ pub fn pair(args: &Args) {
     let probe = args.flag("probe");
     let small = args.flag("small");
     let force_zwr = args.flag("zwr");
-    // (C08 only: a quarter of the endpoints sit on a device with a burst limit, which makes the interface clamp the window
+    // (C08 only: half of the endpoints sit on a device that leaves UDP checksums alone -- TCP's must be verified all the
+    //  same --, and a quarter of the endpoints sit on a device with a burst limit, which makes the interface clamp the window
     //  field of what it emits. Such a socket accepts more than the window it lets out; the rules that judge segments
     //  against the advertised window (C04, C05, C17) would have to be weakened for it, so their traces do not have it.)
     let burst_mode = args.flag("burst");
@@ -319,6 +326,8 @@ pub fn pair(args: &Args) {
         if !burst_mode {
             ca.burst = None;
             cb.burst = None;
+            ca.udp_csum_off = false;
+            cb.udp_csum_off = false;
         }
         cb.mtu = ca.mtu; // one link, one MTU
         cb.v6 = ca.v6; // and one address family
@@ -426,8 +435,8 @@ pub fn pair(args: &Args) {
         total[0] = total[0].min(400 * (ca.tx.min(cb.rx) as i64));
         total[1] = total[1].min(400 * (cb.tx.min(ca.rx) as i64));
         t.ev(json!({"ev":"reset","run":run,"world":"tcp_pair","seed":seed0,"pollat":pollat_mode,"args":{"small":small,"probe":probe,"zwr":force_zwr,"ackloss":force_ackloss,"edge":edge_mode,"burst":burst_mode,"maxbytes":maxbytes},"zw":zwr,"al":ackloss,
-            "v6":ca.v6,"cfg":[{"rx":ca.rx,"tx":ca.tx,"mtu":ca.mtu,"cc":ca.cc,"ad":ca.ack_delay.map(|x| x as i64).unwrap_or(-1),"nagle":ca.nagle,"ts":ca.ts,"isn":wa,"ka":ca.keep_alive.map(|x| x as i64).unwrap_or(-1),"tmo":ca.timeout.map(|x| x as i64).unwrap_or(-1),"spare":ca.spare,"burst":ca.burst.map(|x| x as i64).unwrap_or(-1)},
-                   {"rx":cb.rx,"tx":cb.tx,"mtu":cb.mtu,"cc":cb.cc,"ad":cb.ack_delay.map(|x| x as i64).unwrap_or(-1),"nagle":cb.nagle,"ts":cb.ts,"isn":wb,"ka":cb.keep_alive.map(|x| x as i64).unwrap_or(-1),"tmo":cb.timeout.map(|x| x as i64).unwrap_or(-1),"spare":cb.spare,"burst":cb.burst.map(|x| x as i64).unwrap_or(-1)}],
+            "v6":ca.v6,"cfg":[{"rx":ca.rx,"tx":ca.tx,"mtu":ca.mtu,"cc":ca.cc,"ad":ca.ack_delay.map(|x| x as i64).unwrap_or(-1),"nagle":ca.nagle,"ts":ca.ts,"isn":wa,"ka":ca.keep_alive.map(|x| x as i64).unwrap_or(-1),"tmo":ca.timeout.map(|x| x as i64).unwrap_or(-1),"spare":ca.spare,"burst":ca.burst.map(|x| x as i64).unwrap_or(-1),"udpoff":ca.udp_csum_off},
+                   {"rx":cb.rx,"tx":cb.tx,"mtu":cb.mtu,"cc":cb.cc,"ad":cb.ack_delay.map(|x| x as i64).unwrap_or(-1),"nagle":cb.nagle,"ts":cb.ts,"isn":wb,"ka":cb.keep_alive.map(|x| x as i64).unwrap_or(-1),"tmo":cb.timeout.map(|x| x as i64).unwrap_or(-1),"spare":cb.spare,"burst":cb.burst.map(|x| x as i64).unwrap_or(-1),"udpoff":cb.udp_csum_off}],
             "link":{"drop":drop_pct,"dup":dup_pct,"flip":flip_pct,"delay":base_delay,"jitter":jitter,"adv_until":adv_until},"total":total}));
         // open: B listens, A connects
         let mut now: i64 = 0;
@@ -983,7 +992,7 @@ impl PeerW {
 }
 
 fn peer_cfg(args: &Args, seed: u64) -> EpCfg {
-    EpCfg { rx: args.usize("rx", 2), tx: args.usize("tx", 4), mtu: args.usize("mtu", 1500), cc: args.u64("cc", 0) as u8, ack_delay: None, nagle: args.flag("nagle"), ts: false, keep_alive: None, timeout: None, seed, v6: args.flag("v6"), spare: args.u64("spare", 0) as u8, burst: None }
+    EpCfg { rx: args.usize("rx", 2), tx: args.usize("tx", 4), mtu: args.usize("mtu", 1500), cc: args.u64("cc", 0) as u8, ack_delay: None, nagle: args.flag("nagle"), ts: false, keep_alive: None, timeout: None, seed, v6: args.flag("v6"), spare: args.u64("spare", 0) as u8, burst: None, udp_csum_off: false }
 }
 
 /// Replays TLC schedules (steps exported from MCTcpPeer) on a real listening socket.
@@ -1084,7 +1093,7 @@ pub fn peer_random(args: &Args) {
         let rx = *rng.pick(&[4usize, 16, 64, 256, 1000, 4096, 70000, 131072]);
         let tx = *rng.pick(&[8usize, 64, 512, 4096, 70000]);
         let mtu = *rng.pick(&[576usize, 1500, 296, 9000]);
-        let cfg = EpCfg { rx, tx, mtu, cc: rng.below(3) as u8, ack_delay: if rng.chance(40) { Some(10) } else { None }, nagle: rng.chance(50), ts: rng.chance(30), keep_alive: None, timeout: None, seed, v6: rng.chance(40), spare: *rng.pick(&[0u8, 0, 1, 2, 3]), burst: None };
+        let cfg = EpCfg { rx, tx, mtu, cc: rng.below(3) as u8, ack_delay: if rng.chance(40) { Some(10) } else { None }, nagle: rng.chance(50), ts: rng.chance(30), keep_alive: None, timeout: None, seed, v6: rng.chance(40), spare: *rng.pick(&[0u8, 0, 1, 2, 3]), burst: None, udp_csum_off: false };
         let peer_iss = match rng.below(4) {
             0 => 0xffff_ff00u32.wrapping_add(rng.below(200) as u32),
             1 => 0x7fff_ff00u32.wrapping_add(rng.below(200) as u32),
